@@ -129,7 +129,7 @@ def renderStmt (n : Names) (dec : VT → Nat → String) : MStmtC → String
   | .select dst c a b => slotStr dst ++ "=" ++ slotStr c ++ "?" ++ slotStr a ++ ":" ++ slotStr b ++ ";"
   | .load dst fn a off => slotStr dst ++ "=" ++ fn ++ "(" ++ memRef n ++ "," ++ addrStr a off ++ ");"
   | .store fn a off v => fn ++ "(" ++ memRef n ++ "," ++ addrStr a off ++ "," ++ slotStr v ++ ");"
-  | .memSize dst => slotStr dst ++ "=" ++ memVal n ++ ".pages;"
+  | .memSize dst => slotStr dst ++ "=wasmMemorySize(" ++ memRef n ++ ");"
   | .memGrow dst src => slotStr dst ++ "=wasmMemoryGrow(" ++ memRef n ++ "," ++ slotStr src ++ ");"
   | .memCopy d s c => "wasmMemoryCopy(" ++ memRef n ++ "," ++ memRef n ++ "," ++ slotStr d ++ "," ++ slotStr s ++ "," ++ slotStr c ++ ");"
   | .memFill d v c => "wasmMemoryFill(" ++ memRef n ++ "," ++ slotStr d ++ "," ++ slotStr v ++ "," ++ slotStr c ++ ");"
